@@ -8,10 +8,22 @@ from ..poly import Poly, same
 from ..values import ARR, LIST, INT
 
 
-def _order_kw(call):
+def _order_kw(call, mod=None):
+    """The order literal of a call ('C' when absent); a module-level constant
+    is looked up; anything else is None (not decided)."""
     for k in call.keywords:
-        if k.arg == 'order' and isinstance(k.value, ast.Constant):
-            return k.value.value
+        if k.arg == 'order':
+            if isinstance(k.value, ast.Constant):
+                return k.value.value
+            if isinstance(k.value, ast.Name) and mod is not None:
+                tree = getattr(mod, 'tree', None)
+                for st in (tree.body if tree is not None else []):
+                    if isinstance(st, ast.Assign) and any(
+                            isinstance(t, ast.Name) and t.id == k.value.id
+                            for t in st.targets) and \
+                            isinstance(st.value, ast.Constant):
+                        return st.value.value
+            return None
     return 'C'
 
 
@@ -263,11 +275,12 @@ def check(an, rep, tier):
     if len(c1) != 1 or len(c2) != 1:
         rep.error('grid index maps: ravel / unravel calls not found')
     else:
-        o1, o2 = _order_kw(c1[0]), _order_kw(c2[0])
+        o1, o2 = _order_kw(c1[0], f1.module), _order_kw(c2[0], f2.module)
         ok = o1 == o2 == 'F'
         rep.add('S-pair', 'grid.ind_tt_to_qtt/ind_qtt_to_tt',
                 'unravel_index(order=%r) / ravel_multi_index(order=%r)'
-                % (o1, o2), 'ok' if ok else 'violation',
+                % (o1, o2), 'ok' if ok else (
+                    'unknown' if None in (o1, o2) else 'violation'),
                 '' if ok else 'the two index maps must use the same digit '
                 'order, and it must be "F" (first digit fastest) to agree '
                 'with the little-endian merge of the QTT cores')
